@@ -201,8 +201,10 @@ class BGPPeering(BGPFactory):
             # Remove the protocol, if it exists
             if pro is self.estab_protocol:
                 self.estab_protocol = None
-                # self.fsm should still be valid and set to ST_IDLE
-                self.fsm.state = bgp_cons.ST_IDLE
+                # self.fsm should still be valid and set to ST_IDLE, unless
+                # the next connection attempt is already under way
+                if self.connector is None or self.connector.state != 'connecting':
+                    self.fsm.state = bgp_cons.ST_IDLE
 
         if self.fsm.allow_automatic_start:
             self.automatic_start(idle_hold=True)
